@@ -132,6 +132,13 @@ def _gen_pipeline(rng):
         chunks = A.rand_chunks(rng, shape)
     while int(np.prod([len(c) for c in chunks])) > 30:
         chunks = A.rand_chunks(rng, shape)
+    if shape and rng.random() < 0.12:
+        # an empty chunk between/next to the others (x[mask].compute_chunk_sizes(), pad(.., 0) ... produce such chunkings)
+        ax = rng.randrange(len(shape))
+        if shape[ax] >= 2:
+            c = list(chunks[ax])
+            c.insert(rng.randint(0, len(c)), 0)
+            chunks = tuple(tuple(c) if a == ax else cs for a, cs in enumerate(chunks))
     v = A.rand_data(dseed, shape, dtype, special=(dseed % 3 == 0))
     nsteps = rng.randint(2, 6)
     steps, unknown, tries = [], False, 0
